@@ -208,6 +208,22 @@ def make_tree(kind, seed, t):
             for a in list(n.attributes)[:1]:
                 n.add_extras("xml:" + a, "shadow of " + str(n.attributes[a]))
         return root
+    if kind == "falsy":
+        # every optional field of every node (the root included) holds its FALSY non-None value: tail "", content "", attribute
+        # and extras values "", a prefix "" - a save/restore guarded by `if value:` does not put these back
+        root = tables.TreeGen(t, seed, max_depth=3, breadth=3).gen(rnd.choice(["dataset", "abstract", "creator", "eml"]))
+        for i, n in enumerate(walk(root)):
+            n.tail = ""
+            if not n.children or i % 2:
+                n.content = ""
+            for a in list(n.attributes):
+                if i % 2:
+                    n.add_attribute(a, "")
+            n.add_attribute("zzEmpty", "")
+            n.add_extras("xml:space", "")
+            if i % 3 == 0:
+                n.prefix = ""
+        return root
     if kind == "unregistered":
         # a live tree some of whose nodes (the root among them) are no longer in the registry - delete_node_instance(id,
         # children=False) does that: the registry is part of what a read-only operation must leave alone
@@ -339,12 +355,12 @@ def run(rep, tier, seed):
     rnd = random.Random(seed)
     jobs = []
     # all ordered pairs on small trees of every kind
-    for i, kind in enumerate(["generated", "entities", "ns", "default-ns", "shadowed"] + (["generated", "entities"] if tier == "thorough" else [])):      # (small trees: 31^2 pairs of calls each)
+    for i, kind in enumerate(["generated", "entities", "ns", "default-ns", "shadowed", "falsy"] + (["generated", "entities"] if tier == "thorough" else [])):      # (small trees: 31^2 pairs of calls each)
         jobs.append((kind, seed * 101 + i, plan_pairs))
     # seeded sequences of length 24 on larger trees, incl. the fixture
-    nseq = 22 if tier == "quick" else 308
+    nseq = 24 if tier == "quick" else 312
     for i in range(nseq):
-        kind = ["fixture", "generated", "entities", "ns", "default-ns", "mutated", "stripped", "exotic", "unregistered", "padded-typed", "shadowed"][i % 11]
+        kind = ["fixture", "generated", "entities", "ns", "default-ns", "mutated", "stripped", "exotic", "unregistered", "padded-typed", "shadowed", "falsy"][i % 12]
         jobs.append((kind, seed * 977 + i, [rnd.choice(sorted(ops)) for _ in range(24)]))
     traces = [tr for chunk in parallel(w_record, jobs, chunk=1) for tr in chunk]
     strip = lambda tr: {"init": tr["init"], "events": tr["events"]}  # noqa: E731
